@@ -95,6 +95,27 @@ Theorem is_acyclic_directed_exact (g : graph) (comp : list nat) (b : bool) :
 Proof. exact (is_acyclic_directed_lemma g comp b). Qed.
 Print Assumptions is_acyclic_directed_exact.
 
+(** forest_iff_count: a simple undirected graph on n nodes (edge list [es], each edge once, no loop) is
+    acyclic iff (number of connected components) + (number of edges) = n, for ANY labelling [comp]
+    whose classes are the connected components. *)
+Theorem forest_iff_count (n : nat) (es : list (nat * nat)) (comp : list nat) :
+  simple_edges n es -> length comp = n ->
+  (forall x y, x < n -> y < n -> (nthn comp x = nthn comp y <-> econn es x y)) ->
+  (forest es <-> n_labels comp + length es = n).
+Proof. exact (forest_iff_count_lemma n es comp). Qed.
+Print Assumptions forest_iff_count.
+
+(** Undirected (explicit directed=False, or inferred on a symmetric pattern; canonical rows): the
+    criterion "no self-loop and n_cc = n - nnz/2" holds exactly when there is neither a self-loop nor
+    a simple cycle on at least 3 nodes. *)
+Theorem is_acyclic_undirected_exact (g : graph) (directed : option bool) (comp : list nat) (b : bool) :
+  wf_graph g -> (forall u, NoDup (row g u)) -> components_contract g false comp ->
+  resolve_directed g directed = Ok false ->
+  is_acyclic g directed comp = Ok b ->
+  (b = true <-> ~ exists c, ucycle g c).
+Proof. exact (is_acyclic_undirected_lemma g directed comp b). Qed.
+Print Assumptions is_acyclic_undirected_exact.
+
 (** ** get_cycles *)
 
 (** Every returned list is a simple cycle of the input (distinct nodes of the graph, consecutive
@@ -109,6 +130,24 @@ Theorem get_cycles_sound (g : graph) (directed : option bool) (comp : list nat) 
 Proof. exact (get_cycles_sound_lemma g directed comp d cs). Qed.
 Print Assumptions get_cycles_sound.
 
+(** Directed graphs: ALL simple cycles are returned (up to rotation), self-loops and 2-cycles included. *)
+Theorem get_cycles_complete_directed (g : graph) (directed : option bool) (comp : list nat) cs :
+  wf_graph g -> components_contract g true comp -> resolve_directed g directed = Ok true ->
+  get_cycles g directed comp = Ok cs ->
+  forall c, dcycle g c -> exists c', In c' cs /\ same_dcycle c c'.
+Proof. exact (get_cycles_complete_directed_lemma g directed comp cs). Qed.
+Print Assumptions get_cycles_complete_directed.
+
+(** Nothing is returned iff the graph is acyclic (directed: no simple directed cycle; undirected: no
+    self-loop and no simple cycle on >= 3 nodes). *)
+Theorem get_cycles_empty_iff_acyclic (g : graph) (directed : option bool) (comp : list nat) (d : bool) cs :
+  wf_graph g -> (forall u, NoDup (row g u)) -> resolve_directed g directed = Ok d ->
+  components_contract g d comp ->
+  get_cycles g directed comp = Ok cs ->
+  (cs = [] <-> ~ has_cycle g d).
+Proof. exact (get_cycles_empty_iff_acyclic_lemma g directed comp d cs). Qed.
+Print Assumptions get_cycles_empty_iff_acyclic.
+
 (** ** break_cycles *)
 
 (** BOUNDED theorem (exhaustive evaluation by vm_compute, not a general proof): for every digraph on
@@ -122,6 +161,20 @@ Theorem break_cycles_ok_upto_4 (g : graph) (root : list nat) (directed : option 
   exists h, bc_run directed true g root = Ok h /\ bc_post g root true h = true.
 Proof. exact (break_cycles_ok_upto_4_lemma g root directed). Qed.
 Print Assumptions break_cycles_ok_upto_4.
+
+(** The same bounded statement with [bc_post] unfolded into propositions (proved, for all graphs:
+    [bc_post_directed_sound]): same nodes, every edge of the result is an edge of the input, no simple
+    directed cycle is left, and every node reachable from a root is still reachable from a root. *)
+Theorem break_cycles_ok_upto_4_prop (g : graph) (root : list nat) (directed : option bool) :
+  In g small_digraphs -> In root (nonempty_sublists (nodes g)) -> 0 < out_degree g root ->
+  directed = Some true \/ (directed = None /\ is_symmetric g = false) ->
+  exists h, bc_run directed true g root = Ok h /\
+    length h = length g /\
+    (forall u v, edge h u v -> edge g u v) /\
+    (~ exists c, dcycle h c) /\
+    (forall r v, In r root -> r < length g -> reach (edge g) r v -> exists r', In r' root /\ reach (edge h) r' v).
+Proof. exact (break_cycles_ok_upto_4_prop_lemma g root directed). Qed.
+Print Assumptions break_cycles_ok_upto_4_prop.
 
 (** BOUNDED, undirected branch (all symmetric patterns on at most 4 nodes, self-loops allowed), with the
     defective site excluded by the explicit hypothesis [cycles_covered]: every node on a cycle is
